@@ -207,6 +207,12 @@ func Cleanup(pipe *pubsub.Queue[fun.Worker], timeout time.Duration) *Service {
 
 			ec := &erc.Collector{}
 
+			// pick up jobs that were accepted but not yet
+			// cached when Run stopped.
+			for item, ok := pipe.Remove(); ok; item, ok = pipe.Remove() {
+				cache.PushBack(item)
+			}
+
 			ec.Add(itertool.ParallelForEach(ctx, cache.PopIterator(),
 				func(ctx context.Context, wf fun.Worker) error {
 					ec.Add(wf.WithRecover().Run(ctx))
